@@ -95,9 +95,19 @@ class _Base(Harness):
                  carray_from_model(model, 'x', nd))
         if np.linalg.matrix_rank(first[0]) < min(shp):
             first = None
+        # the solver's channel with the solver's data, then the solver's
+        # channel with random data (the model often leaves the data at 0),
+        # then random channels
+        state = {'n': 0}
+
+        def gen(r):
+            state['n'] += 1
+            if first is not None and state['n'] <= 4:
+                return (first[0], crandn(r, nd))
+            return (crandn(r, *shp), crandn(r, nd))
         bad, inp = search_witness(
-            lambda i: self._numeric(cfg, i[0], i[1]), first,
-            gen=lambda r: (crandn(r, *shp), crandn(r, nd)), tries=24)
+            lambda i: self._numeric(cfg, i[0], i[1]), first, gen=gen,
+            tries=24)
         return dict(reproduced=bool(bad),
                     key='C04/%s/%s:%dx%d' % (self.scheme, '+'.join(bad),
                                              shp[0], shp[1]),
@@ -228,7 +238,8 @@ class MrtH(_Base):
     bounds = '1 x Nt, Nt in {1,2} (quick), 3 (thorough); 2 data symbols'
     stubs = ('np.angle(h) -> opaque angle with unit phasor (c,s): |h| c = re h,'
              ' |h| s = im h, c^2+s^2 = 1; exp(-1j angle) = (c,-s)', )
-    assumptions = _Base.assumptions + ('every channel tap is non-zero', )
+    assumptions = _Base.assumptions + ('the channel vector is not the zero '
+                                       'vector (individual taps may be 0)', )
 
     def configs(self, tier):
         nts = [1, 2] if tier == 'quick' else [1, 2, 3]
@@ -240,6 +251,7 @@ class MrtH(_Base):
     def sym(self, ctx, cfg):
         mm = repo_module(MIMO)
         Nt = cfg['Nt']
+        ctx.angle_zero_fork = True     # taps that are exactly zero
         H = sym_array(ctx, 'H', (1, Nt), kind='complex')
         x = sym_array(ctx, 'x', 2, kind='complex')
         obj = mm.MRT(H)
@@ -343,7 +355,113 @@ class GmdH(_Base):
         return super()._numeric(cfg, H.real.copy(), x)
 
 
-HARNESSES = [AlamoutiH(), BlastH(), MrtH(), SvdH(), GmdH()]
+class HistoryH(_Base):
+    """Scheme objects are stateful (channel, noise variance): after any
+    sequence of set_channel_matrix / set_noise_var / decode calls, decode must
+    use the CURRENT channel and noise setting (no stale filters)."""
+    name = 'history'
+    scheme = 'Blast'
+    functions = (MIMO + ':Blast.set_noise_var', MIMO + ':Blast.decode',
+                 MIMO + ':Blast.set_channel_matrix',
+                 MIMO + ':MimoBase.set_channel_matrix',
+                 MIMO + ':SVDMimo.decode', MIMO + ':MRC.set_channel_matrix')
+    bounds = ('Blast 2x2, MRC 2x1, SVDMimo 2x2 (quick) + GMDMimo 2x2 '
+              '(thorough); histories: [noise v, decode, noise 0|None, decode], '
+              '[decode, new channel, decode], [noise v, decode, new channel, '
+              'noise None, decode]')
+
+    def configs(self, tier):
+        out = []
+        for sch, nr, nt in (('Blast', 2, 2), ('MRC', 2, 1), ('SVDMimo', 2, 2)):
+            for hist in ('noise-then-zf', 'rechannel', 'noise-rechannel-zf'):
+                if sch == 'SVDMimo' and hist != 'rechannel':
+                    continue
+                out.append(dict(scheme=sch, Nr=nr, Nt=nt, hist=hist))
+        if tier != 'quick':
+            out.append(dict(scheme='GMDMimo', Nr=2, Nt=2, hist='rechannel'))
+        return out
+
+    def _mk(self, cfg, H):
+        return getattr(repo_module(MIMO), cfg['scheme'])(H)
+
+    def _mkH(self, ctx, cfg, tag):
+        Nr, Nt = cfg['Nr'], cfg['Nt']
+        if cfg['scheme'] in ('SVDMimo', 'GMDMimo'):
+            real = cfg['scheme'] == 'GMDMimo'
+            U = C.unitary(ctx, 'U' + tag, Nr, real=real)
+            V = C.unitary(ctx, 'V' + tag, Nt, real=real)
+            S = C.singular_values(ctx, 'S' + tag, min(Nr, Nt), strict=True)
+            Sig = np.empty((Nr, Nt), dtype=object)
+            for i in range(Nr):
+                for j in range(Nt):
+                    Sig[i, j] = C._c(S[i]) if i == j else C._c(0)
+            Vh = C.herm(V)
+            H = C.mm(U, Sig, Vh)
+            if real:
+                H = C._ret(H, True)
+                C.register_svd(H, C._ret(U, True), S, C._ret(Vh, True))
+            else:
+                C.register_svd(H, U, S, Vh)
+            return H
+        return sym_array(ctx, 'H' + tag, (Nr, Nt), kind='complex')
+
+    def sym(self, ctx, cfg):
+        Nt = cfg['Nt']
+        H1 = self._mkH(ctx, cfg, '1')
+        x = sym_array(ctx, 'x', Nt, kind='complex')
+        obj = self._mk(cfg, H1)
+        hist = cfg['hist']
+        if hist in ('noise-then-zf', 'noise-rechannel-zf'):
+            nv = ctx.real('nv', positive=True)
+            obj.set_noise_var(nv)
+            obj.decode(np.dot(H1, obj.encode(x)))     # MMSE decode (cached?)
+        else:
+            obj.decode(np.dot(H1, obj.encode(x)))
+        Hc = H1
+        if hist in ('rechannel', 'noise-rechannel-zf'):
+            Hc = self._mkH(ctx, cfg, '2')
+            obj.set_channel_matrix(Hc)
+        if hist in ('noise-then-zf', 'noise-rechannel-zf'):
+            obj.set_noise_var(None)
+        if cfg['scheme'] == 'GMDMimo':
+            Q, R, P = repo_module(MISC).gmd(*C.svd(Hc))
+            prove_zero(ctx, 'lemma: H P = Q R',
+                       C.mm(C.as_cmat(Hc), C.as_cmat(P)) -
+                       C.mm(C.as_cmat(Q), C.as_cmat(R)), rounds=3,
+                       fallback_exact=False, lemma=True)
+        dec = obj.decode(np.dot(Hc, obj.encode(x)))
+        prove_zero(ctx, 'roundtrip-after-history', dec - x, rounds=3,
+                   fallback_exact=False)
+
+    def _numeric(self, cfg, H, x, noise_var=None):
+        import random
+        rng = random.Random(int(abs(H.flat[0].real) * 1e6) % 1000)
+        if cfg['scheme'] == 'GMDMimo':
+            H = H.real.copy()
+        obj = self._mk(cfg, H)
+        hist = cfg['hist']
+        if hist in ('noise-then-zf', 'noise-rechannel-zf'):
+            obj.set_noise_var(0.8)
+        obj.decode(H @ obj.encode(x))
+        Hc = H
+        if hist in ('rechannel', 'noise-rechannel-zf'):
+            Hc = crandn(rng, *H.shape)
+            if cfg['scheme'] == 'GMDMimo':
+                Hc = Hc.real.copy()
+            obj.set_channel_matrix(Hc)
+        if hist in ('noise-then-zf', 'noise-rechannel-zf'):
+            obj.set_noise_var(None)
+        dec = obj.decode(Hc @ obj.encode(x))
+        cond = np.linalg.cond(Hc)
+        ok = np.allclose(dec, x, atol=1e-9 * max(1.0, cond)**2)
+        return [] if ok else ['stale-state:' + hist]
+
+    def replay(self, cfg, name, model):
+        self.scheme = cfg['scheme']
+        return super().replay(cfg, name, model)
+
+
+HARNESSES = [AlamoutiH(), BlastH(), MrtH(), SvdH(), GmdH(), HistoryH()]
 
 MANIFEST = dict(
     category='model_checking',
